@@ -50,6 +50,10 @@ type GoBackend struct {
 
 	utils *CodeUtils
 	funcs template.FuncMap
+
+	// ExtraStructMethods names the methods that a backend built on top of this one declares for
+	// every struct-like, so that no field gets one of these names.
+	ExtraStructMethods []string
 }
 
 // Name implements the Backend interface.
@@ -126,6 +130,7 @@ func (g *GoBackend) prepareUtilities() {
 	}
 
 	g.utils = NewCodeUtils(g.log)
+	g.utils.extraMethods = g.ExtraStructMethods
 	g.err = g.utils.HandleOptions(g.req.GeneratorParameters)
 	if g.err != nil {
 		return
